@@ -20,6 +20,7 @@ import re
 import uuid as uuidlib
 from datetime import datetime, timedelta
 
+from ..impl import c11api as api
 from ..impl import c11pv as pv
 from ..translate import c11 as tr
 
@@ -521,6 +522,8 @@ def gen_cases(rng, tier):
         cases.append(g_e2e_case(rng, ml, want))
     for i in range(12 if tier == "quick" else 160):
         cases.append(g_rails_case(rng, "regex" if rng.random() < 0.1 else None))
+    for i in range(8 if tier == "quick" else 90):
+        cases.append(api.g_api_case(rng, tier))
     return cases
 
 
@@ -602,6 +605,8 @@ def run_impl(case):
             signal.signal(signal.SIGVTALRM, old)
     if k == "rails":
         return run_rails(case)
+    if k == "api":
+        return api.run_api(case, _Clock, _FakeRandomBits)
     raise ValueError(k)
 
 
@@ -1246,6 +1251,14 @@ def oracle(case, obs):
         if len(obs["live"]) != len(obs["saved"]):
             return "conversation with the state travelling as JSON stops early"
         return None
+    if k == "api":
+        if "live_failed" in obs:
+            return f"generate_async raises at turn {obs['live_failed']} of an undisturbed conversation with the state travelling as JSON: {obs['live'][-1][4:]}"
+        d = api.first_divergence(obs)
+        if d:
+            return (f"saved state (API level) does not continue like the live conversation: {d['family']}: {d['what']}: turn {d['turn']} "
+                    f"live {json.dumps(obs['live'][d['turn']])[:220]} got {json.dumps(d['got'])[:220]}")
+        return None
     if obs["problems"]:
         p = _worst(obs["problems"])
         if p["what"] == "encode":
@@ -1366,7 +1379,7 @@ def signature(case, obs, msg):
         if any(_removable(f, case["now"]) and f["uid"] in needed for f in case["flows"]):
             return "cleanup-dangling-parent"
         return None
-    if k == "rails":
+    if k in ("rails", "api"):
         return None
     probs = obs.get("problems") or []
     if not probs:
@@ -1406,6 +1419,10 @@ def nontrivial(case, obs):
         return "flows" in obs and 0 < len(obs["flows"]) < len(case["flows"])
     if k == "rails":
         return "live" in obs and sum(1 for o in obs["live"] if o and not isinstance(o, str)) >= 2
+    if k == "api":
+        # at least two turns answered, at least one local action ran, and at least three attempts really failed part-way
+        return ("skip" not in obs and "live_failed" not in obs and sum(1 for o in obs["live"] if o and o[0].get("content")) >= 2
+                and sum(obs["actions"]) >= 1 and obs["n_failed"] >= 3)
     return "skip" not in obs and obs.get("nonempty", 0) >= 2 and obs.get("max_flows", 0) >= 3
 
 
@@ -1437,6 +1454,22 @@ def tags(case, obs):
         t.append("rails-turns:" + str(len(case["turns"])))
         if "skip" in obs:
             t.append("skip:" + obs["skip"][:40])
+    elif k == "api":
+        if "skip" in obs:
+            t.append("skip:" + obs["skip"][:40])
+        elif "live_failed" in obs:
+            t.append("api-live-failed")
+        else:
+            t.append("api-turns:" + str(len(case["turns"])))
+            t.append("api-calls:" + str(obs["n_calls"] // 50 * 50))
+            t.append("api-actions:" + str(min(sum(obs["actions"]), 4)))
+            t.append("api-await-points:" + str(sum(obs["awaits"]) // 20 * 20))
+            for fk, c in obs["fail_kinds"].items():
+                t.append("api-fail:" + fk)
+            for f in sorted(set(s0["family"] for s0 in obs["steps"])):
+                t.append("api-family:" + f)
+            for f in case.get("features", []):
+                t.append("api-feat:" + f)
     else:
         if "skip" in obs:
             t.append("skip:" + obs["skip"].split(":")[1])
@@ -1464,6 +1497,8 @@ def shrink(case):
         for i, l in enumerate(lines):
             if i > start and re.match(r"  (\$|send |start |activate )", l):
                 yield dict(case, src="\n".join(lines[:i] + lines[i + 1:]))
+    elif case["kind"] == "api":
+        yield from api.shrink_api(case)
     elif case["kind"] == "cleanup":
         fl = case["flows"]
         for i in range(len(fl)):
